@@ -23,6 +23,7 @@ RULE = ("(a) wsvg round trips: lists of 1-6 paths (any segment mix, several subp
 ASSUMPTIONS = ["Document.add_path is given string attribute values (ElementTree serialises strings only); wsvg also real numbers", "a style attribute only sets properties that no other supplied attribute sets (SaxDocument merges style over attributes, as CSS precedence has it)", "attribute values avoid XML-significant characters and whitespace that XML attribute normalisation may change",
                "arcs that had been auto-enlarged may differ in radius by 1e-12 relative after the round trip (C01)",
                "files are written under a fresh temporary directory that the check removes"]
+RULE += ' Also: Attribute dictionaries may carry a stale d entry (as svg2paths hands them out).'   # added after the seeded-change rounds (DESIGN.md section 10)
 CONFIGS = ['scipy']
 BUDGET = {'quick': 3000, 'thorough': 40000}
 REQUIRED = ['attributes_with_stale_d', 'wsvg', 'history', 'attr:hyphenated', 'svg_attributes', 'nested_directory', 'reader:svg2paths', 'reader:Document', 'reader:SaxDocument',
